@@ -172,6 +172,7 @@ def _check_tdc(ctx, tdc):
                 f"{TDC}: expected parameters (scores, target, desc)")
     p_scores, p_target, p_desc = params[0], params[1], params[2]
     _check_integer_negation(ctx, tdc, p_scores)
+    _check_no_precision_loss(ctx, tdc, p_scores)
     for desc in (True, False):
         case = f"desc={desc}"
         fnode = specialise(tdc.node, {p_desc: desc})
@@ -391,6 +392,81 @@ def _check_integer_negation(ctx, tdc, p_scores):
                       "integer scores are converted to float before they "
                       "are negated for the descending sort", why,
                       node=d.node)
+
+
+NARROW_TYPES = {"numpy.float32", "numpy.float16", "numpy.half",
+                "numpy.single", "builtins.int", "numpy.int8", "numpy.int16",
+                "numpy.int32", "numpy.int64", "numpy.uint8", "numpy.uint16",
+                "numpy.uint32", "numpy.uint64", "numpy.intp"}
+NARROW_NAMES = {"float32", "float16", "f4", "f2", "half", "single", "int",
+                "int32", "int64", "i4", "i8"}
+
+
+def _check_no_precision_loss(ctx, tdc, p_scores):
+    """A conversion of the score vector to a narrower type merges scores
+    that differ (float64 values closer than float32 resolution become one
+    tie group): allowed only for scores that are known to be integers."""
+    prog = ctx.prog
+    du = DefUse(prog, tdc)
+    T = Terms(du)
+    from ..cfg import CFG
+    from ..astutil import cond_terms
+    cfg = CFG(tdc.node)
+
+    def narrow(t):
+        if t[0] in ("name", "free"):
+            return t[1] in NARROW_TYPES or t[1].split(".")[-1] in \
+                NARROW_NAMES
+        if t[0] == "const" and isinstance(t[1], str):
+            return t[1] in NARROW_NAMES
+        if t[0] == "call" and t[1] == "numpy.dtype" and t[2]:
+            return narrow(t[2][0])
+        return False
+
+    n_sites = 0
+    for n in ast.walk(tdc.node):
+        if not isinstance(n, ast.Call):
+            continue
+        src = ty = None
+        if isinstance(n.func, ast.Attribute) and n.func.attr == "astype" \
+                and n.args:
+            src, ty = n.func.value, T.of(n.args[0])
+        else:
+            t = T.of(n)
+            if t[0] == "call" and t[1] in NARROW_TYPES and n.args:
+                src, ty = n.args[0], ("name", t[1])
+            elif t[0] == "call" and t[1] in ("numpy.asarray", "numpy.array",
+                                             "numpy.asanyarray") and n.args:
+                d = dict(t[3]).get("dtype")
+                if d is not None:
+                    src, ty = n.args[0], d
+        if src is None or not narrow(ty):
+            continue
+        roots = set()
+        for nm in ast.walk(src):
+            if isinstance(nm, ast.Name):
+                roots |= du.backward_roots(nm)
+        if ("param", p_scores) not in roots:
+            continue
+        n_sites += 1
+        conds = cond_terms(cfg, T, n)
+        ok = any(o and c[0] == "call" and c[1] == "numpy.issubdtype"
+                 and len(c[2]) == 2 and c[2][1][0] in ("name", "free")
+                 and c[2][1][1].split(".")[-1] in (
+                     "integer", "signedinteger", "unsignedinteger", "bool_")
+                 for c, o in conds)
+        ctx.check(ok, "C01e-no-precision-loss", tdc,
+                  f"scores are narrowed to {show(ty, 30)} only when they "
+                  "are integers",
+                  f"'{ast.unparse(n)[:60]}' narrows the scores to "
+                  f"{show(ty, 30)} for every input dtype: float64 scores "
+                  "that differ by less than single precision collapse into "
+                  "one tie group, so the q-values change under a monotone "
+                  "rescaling and no longer follow the defining formula",
+                  node=n)
+    if not n_sites:
+        ctx.ok("C01e-no-precision-loss", tdc,
+               "the score vector is never converted to a narrower type")
 
 
 def _check_estimator(ctx, tdc, al, fdr_t, tot_t, rnode, case, p_target, skey,
